@@ -7,6 +7,7 @@ mod containers;
 mod generic;
 mod flow;
 mod band;
+mod recursive;
 
 use consts::*;
 use generic::{Describe, Scale};
@@ -16,5 +17,5 @@ fn main() -> felt252 {
     let c = containers::sum_squares(array![1, 2, 3, BASE].span());
     let g = 7_u32.scale(3).describe() + 9_u64.scale(2).describe();
     let f = flow::collatz(27) + flow::apply_twice(5, 3);
-    h + c.into() + g + f.into() + band::caller_3(2) + band::caller_6(3)
+    h + c.into() + g + f.into() + band::caller_3(2) + band::caller_6(3) + recursive::head(recursive::pass(recursive::singleton(4)))
 }
